@@ -17,6 +17,12 @@ S  players: Pbind / Pmono / Pchain / Ppar / Pdur / Pdelta / Pseq compositions
    over finite dur patterns with rests, played with `.play()`; the score is
    compared with the timeline denoted by `mc.oracles.event_ref.denote`.
 
+R  event re-use: an event is played, one or two of its keys (freq, amp,
+   pan) are changed in place, on a copy(), or by a Pbind whose `proto` is the
+   played event, and it is played again later in the same routine, for
+   instruments with and without a gate; the second `/s_new` (+ gate-off) must
+   carry the values of the event as it is at the second play, fresh node id.
+
 The oracle (mc/oracles/event_ref.py) never imports sc3; its don't-cares are
 listed in its docstring."""
 
@@ -885,6 +891,99 @@ def nontrivial_P(case):
 
 
 # ---------------------------------------------------------------------------
+# family R: event re-use (play, modify, play again)
+# ---------------------------------------------------------------------------
+
+R_MASKS = [7, 23, 3, 19, 1, 17, 6, 22]   # freq/amp/pan subsets, without and
+#                                           with gate (bit 16)
+R_FIRST = [{'freq': 440.0, 'amp': 0.2}, {'freq': 440.0, 'amp': 0.2,
+                                         'pan': -0.5}, {'amp': 0.2}]
+R_CHANGE = [{}, {'freq': 220.0}, {'amp': 0.5}, {'pan': 0.5},
+            {'freq': 220.0, 'amp': 0.5}, {'amp': 0.5, 'pan': 0.5},
+            {'freq': 220.0, 'pan': 0.5}]
+R_HOW = ['inplace', 'copy', 'proto']
+R_PROTO_DUR = 0.5
+
+
+def gen_R(tier):
+    """An event is played, one or two of its keys are changed (in place, on
+    a copy(), or by a Pbind that gets the played event as `proto`), and it
+    is played again later in the same routine.  Only explicit freq/amp/pan
+    are used (no harmonic/detune, no degree) so that the value of the event
+    at the second play does not depend on whether play() writes resolved
+    keys back into the event (not decided by the statement)."""
+    waits = [0.5] if tier == 'quick' else [0.5, 0.25, 1]
+    for mask in R_MASKS:
+        for first in R_FIRST:
+            for change in R_CHANGE:
+                for how in R_HOW:
+                    for at in (0, 0.5):
+                        for lat in (0, 0.25):
+                            for w in waits:
+                                yield {'fam': 'R', 'instr': mask,
+                                       'first': first, 'change': change,
+                                       'how': how, 'at': at, 'lat': lat,
+                                       'wait': w}
+
+
+def check_R(case, info):
+    name = instr_name(case['instr'])
+    first, change, how = case['first'], case['change'], case['how']
+    at, lat, wait = case['at'], case['lat'], case['wait']
+
+    def body():
+        from sc3.seq.event import event
+        from sc3.base import stream as stm
+        from sc3.seq.patterns.eventpatterns import Pbind
+        from sc3.seq.patterns.listpatterns import Pseq
+
+        def rfunc():
+            if at:
+                yield at
+            e = event(dict(first, instrument=name))
+            e.play()
+            yield wait
+            if how == 'inplace':
+                for k, v in change.items():
+                    e[k] = v
+                e.play()
+            elif how == 'copy':
+                e2 = e.copy()
+                for k, v in change.items():
+                    e2[k] = v
+                e2.play()
+            else:
+                Pbind(dict(change, dur=Pseq([R_PROTO_DUR]))).play(proto=e)
+        stm.Routine(rfunc).play()
+    r = run_score(lat, body, at=None)
+    info['outcome'] = renumber(r['score']) if r['score'] else r['exc']
+    out = desc_disc(r, 'R:')
+    if r['score'] is None or r['log']:
+        return out + [(f'R:play-raises@{how}', '2 /s_new',
+                       r['exc'] or r['log'], '')]
+    second = dict(first)
+    second.update(change)
+    if how == 'proto':
+        second['dur'] = R_PROTO_DUR
+    ctrls = ctrls_of(name)
+    exp = [{'kind': 'note', 't': at + dt, 'instr': name, 'action': 0,
+            'group': 1, 'tag': None, 'spec': ref.note_spec(g, ctrls)}
+           for dt, g in ((0, first), (wait, second))]
+    for disc, e, o, det in compare(exp, r['score'], lat):
+        out.append((f'R:{disc}@{how}', e, o,
+                    (det + ' | the event at the second play defines '
+                     + core.canon(second))[:600]))
+    return out
+
+
+def nontrivial_R(case):
+    """The second play differs from the first in a key the instrument has
+    as a control."""
+    return any(k in ctrls_of(instr_name(case['instr']))
+               for k in case['change'])
+
+
+# ---------------------------------------------------------------------------
 # family S: players
 # ---------------------------------------------------------------------------
 
@@ -1312,6 +1411,22 @@ def standalone(case):
             plays.append(f'event({src_dict(e["given"])}, '
                          f'instrument={name!r}).play()')
         lines.append('main.reset()')
+    elif fam == 'R':
+        at, lat = case['at'], case['lat']
+        name = instr_name(case['instr'])
+        lines.append(f'instrument({name!r}, {ctrls_of(name)!r})')
+        lines.append('main.reset()')
+        plays = [f'e = event({src_dict(case["first"])}, instrument={name!r})',
+                 'e.play()', f'yield {case["wait"]!r}']
+        sets = [f'[{k!r}] = {v!r}' for k, v in case['change'].items()]
+        if case['how'] == 'inplace':
+            plays += ['e' + x for x in sets] + ['e.play()']
+        elif case['how'] == 'copy':
+            plays += ['e2 = e.copy()'] + ['e2' + x for x in sets] + \
+                ['e2.play()']
+        else:
+            d = dict(case['change'], dur=['Pseq', [R_PROTO_DUR], 1])
+            plays.append(f'Pbind({src_dict(d, True)}).play(proto=e)')
     else:
         at, lat = case['at'], case['lat']
         for name in sorted(instruments_in(case['pat'], set())):
@@ -1347,6 +1462,8 @@ def check_case(case, info=None):
         dis = check_P(case, info)
     elif fam == 'S':
         dis = check_S(case, info)
+    elif fam == 'R':
+        dis = check_R(case, info)
     else:
         raise core.HarnessError(f'bad family {fam}')
     seen, out = set(), []
@@ -1358,8 +1475,8 @@ def check_case(case, info=None):
 
 
 def is_nontrivial(case):
-    return {'K': nontrivial_K, 'P': nontrivial_P,
-            'S': nontrivial_S}[case['fam']](case)
+    return {'K': nontrivial_K, 'P': nontrivial_P, 'S': nontrivial_S,
+            'R': nontrivial_R}[case['fam']](case)
 
 
 def replay(job):
@@ -1400,6 +1517,8 @@ def part_cases(job):
     if part == 'S':
         return itertools.islice(cases_S(tier), job['shard'], None,
                                 job['of'])
+    if part == 'R':
+        return itertools.islice(gen_R(tier), job['shard'], None, job['of'])
     raise core.HarnessError(f'bad part {part}')
 
 
@@ -1409,6 +1528,7 @@ def jobs(tier):
     js += [{'part': 'P', 'mask': m} for m in range(64)]
     js += [{'part': 'Pp'}]
     js += [{'part': 'S', 'shard': i, 'of': 32} for i in range(32)]
+    js += [{'part': 'R', 'shard': i, 'of': 4} for i in range(4)]
     for j in js:
         j['tier'] = tier
     return js
@@ -1443,11 +1563,14 @@ def main(ctx):
         'control keys x time/latency/duration/add-action/group contexts, '
         'plus pairs of events in one routine; (S) Pbind/Pmono/Pchain/Ppar/'
         'Pdur/Pdelta/Pseq compositions over every dur sequence of bounded '
-        'length over {0.25,0.5,1} with rests. Non-trivial: (K) >=2 keys of '
+        'length over {0.25,0.5,1} with rests; (R) 8 instruments x 3 events '
+        'x 7 key changes x {in place, copy(), proto of a Pbind} x time/'
+        'latency: play, change, play again. Non-trivial: (K) >=2 keys of '
         'one chain collide or a modifier/scale meets an explicit main key; '
         '(P) instrument controls and event keys overlap only partly, or two '
         'events share a routine; (S) a pattern is nested in a pattern or '
-        'Ppar children interleave. All cases are distinct.')
+        'Ppar children interleave; (R) a changed key is a control of the '
+        'instrument. All cases are distinct.')
     ctx.assumptions += [
         'reference semantics mc/oracles/event_ref.py written from the '
         'SuperCollider Event/Scale/Tuning/Pbind/Pmono/Ppar/Pchain/Pfindur '
